@@ -7,6 +7,8 @@
          | (1 N (event ...))  the ownership history of one concurrent run with N
                               goroutines: event = (0 t s seed) Garble returned a handle
                               on scratch s | (1 t hi) about to Release | (2 t hi) Eval
+                              | (3 t site seed) Garble failed at error site [site] (0 R, 2 input
+                              labels, 3 a gate); it reserves one scratch number
    output = the C01 observable | (accepted nscratch live)
      accepted 1 iff the small-step model of Pool.v can produce this history and
      every state on the way satisfies the exclusivity predicate; nscratch =
@@ -20,6 +22,7 @@ Definition event_of_sx (s : sx) : event :=
   match getZ (nthx 0 s) with
   | 0%Z => EvGarble (getnat (nthx 1 s)) (getnat (nthx 2 s)) (getnat (nthx 3 s))
   | 1%Z => EvRelease (getnat (nthx 1 s)) (getnat (nthx 2 s))
+  | 3%Z => EvGarbleFail (getnat (nthx 1 s)) (getnat (nthx 2 s)) (getnat (nthx 3 s))
   | _ => EvEval (getnat (nthx 1 s)) (getnat (nthx 2 s))
   end.
 
